@@ -177,11 +177,13 @@ def gen_building(rng, n=None, allow_aux=True, allow_multi_aux=False, allow_out=T
     want_pv = "pv" in force or rng.random() < 0.55
     want_chp = "chp" in force or rng.random() < 0.35
     if want_pv:
-        regime = rng.choice(["below", "above", "mixed", "zero_some", "equal"])
+        regime = rng.choice(["below", "above", "mixed", "zero_some", "equal", "all_zero"])
         pv = []
         for t in range(n):
             u = el_tot[t]
-            if ratio_only:
+            if regime == "all_zero":
+                pv.append(Fraction(0))       # a declared source that produces nothing (a valid input)
+            elif ratio_only:
                 if regime == "below":
                     pv.append(u * rng.choice(RATIOS[:4]))
                 elif regime == "above":
